@@ -176,7 +176,7 @@ impl Prop for C08 {
         tier == Tier::Thorough
     }
     fn rule(&self) -> String {
-        "add_months with Modifier::Act against own civil arithmetic (target month by floor-div/mod 12 of the month count; day = requested roll day capped at the month length; IMM = third Wednesday): boundary set (10 leap / non-leap / century years x every month x days 26-31 x offsets -25..25 and multiples of 12 x all 35 roll kinds); quick: 3*10^5 seeded random (date, offset, roll) triples; thorough: EVERY start date 1970-2200 x offsets -36..36 and +-48,60,120,600,1200 x all 35 roll kinds (results inside 1970-2200). get_imm/get_eom/is_imm/is_eom for every month 1970-2200, is_leap_year for 1..9999, get_roll for every month x kind. With the four adjusting modifiers: result == C04 oracle applied to the unadjusted date, on the calendar zoo. distinct_nontrivial = distinct (start, offset, roll kind) whose target month differs from the start month or whose day was capped.".into()
+        "add_months with Modifier::Act against own civil arithmetic (target month by floor-div/mod 12 of the month count; day = requested roll day capped at the month length; IMM = third Wednesday): boundary set (10 leap / non-leap / century years x every month x days 26-31 x offsets -25..25 and multiples of 12 x all 35 roll kinds); quick: 3*10^5 seeded random (date, offset, roll) triples; thorough: EVERY start date 1970-2200 x offsets -36..36 and +-48,60,120,600,1200 x all 35 roll kinds (results inside 1970-2200). get_imm/get_eom/is_imm/is_eom for every month 1970-2200, is_leap_year for 1..9999, get_roll for every month x kind. With the four adjusting modifiers: result == C04 oracle applied to the unadjusted date, on the calendar zoo. distinct_nontrivial = distinct (start, offset, roll kind) whose target month differs from the start month or whose day was capped. Eligible days (business / settlement) are derived from each calendar's description - week mask, holiday list, members and settlement members - and the object's own predicates must agree with that before any result is judged; one calendar in four is exercised inside the CalType container.".into()
     }
     fn assumptions(&self) -> Vec<String> {
         vec!["roll days 1..31 only; results outside 1970-2200 are not asserted".into()]
@@ -324,7 +324,17 @@ impl Prop for C08 {
                     ctx.class("calendar:inside-CalType-container");
                 }
                 with_cal!(&any, c => {
-                    let bits = CalBits::build(c, z0 - 1700, z1 + 1700);
+                    let bits = match CalBits::from_spec(&spec, z0 - 1700, z1 + 1700) {
+                        Some(b) => b,
+                        None => {
+                            ctx.harness_error("calendar description does not resolve".into());
+                            return;
+                        }
+                    };
+                    if let Some((z, which)) = bits.first_difference(&CalBits::build(c, z0 - 1700, z1 + 1700)) {
+                        ctx.violation(&format!("C08|eligible-days-differ-from-definition|{}|{}", which, spec.kind()), json!({"calendar": spec.describe(), "date": fmt_z(z), "predicate": which}));
+                        return;
+                    }
                     for k in 0..2000 {
                         let z = z0 + rng.range_i(0, z1 - z0);
                         let o = rng.range_i(-30, 30);
